@@ -30,6 +30,22 @@ type FieldRec struct {
 	DWC     uint16 `json:"dwc"` // of the allocated (base) struct
 	PC      uint16 `json:"pc"`
 	ListElt string `json:"listelt,omitempty"`
+	TypeID  uint64 `json:"typeid,omitempty"`  // struct / enum / interface type, or such an element type of a list
+	EltDWC  uint16 `json:"eltdwc,omitempty"`  // List(struct): the element node's sizes
+	EltPC   uint16 `json:"eltpc,omitempty"`
+	EltList bool   `json:"eltlist,omitempty"` // List(struct)
+}
+
+// IfaceRec: the parameter / result struct types of an interface's methods.
+type IfaceRec struct {
+	Type    string
+	Methods []MethodRec
+}
+
+type MethodRec struct {
+	Name     string // Go method name
+	ParamID  uint64
+	ResultID uint64
 }
 
 type NodeRec struct {
@@ -232,6 +248,19 @@ func defaults(kind string, t schema.Type, v schema.Value) (string, string, error
 type Table struct {
 	Nodes  []NodeRec
 	Fields []FieldRec
+	Ifaces []IfaceRec
+}
+
+func typeRefID(t schema.Type) uint64 {
+	switch t.Which() {
+	case schema.Type_Which_structType:
+		return t.StructType().TypeId()
+	case schema.Type_Which_enum:
+		return t.Enum().TypeId()
+	case schema.Type_Which_interface:
+		return t.Interface().TypeId()
+	}
+	return 0
 }
 
 // Build lists nodes and fields of the struct nodes of file fileID (those the emitted file
@@ -310,9 +339,18 @@ func Build(reqName, pkg string, req schema.CodeGeneratorRequest, fileID uint64, 
 				if err != nil {
 					return fmt.Errorf("%s.%s: %v", goName, fname, err)
 				}
+				fr.TypeID = typeRefID(ty)
 				if fr.Kind == "list" {
 					et, _ := ty.List().ElementType()
 					fr.ListElt = KindOf(et)
+					if fr.ListElt == "struct" || fr.ListElt == "enum" {
+						fr.TypeID = typeRefID(et)
+					}
+					if en, ok := byID[fr.TypeID]; ok && fr.ListElt == "struct" && en.Which() == schema.Node_Which_structNode {
+						fr.EltList = true
+						fr.EltDWC = en.StructNode().DataWordCount()
+						fr.EltPC = en.StructNode().PointerCount()
+					}
 				}
 			case schema.Field_Which_group:
 				fr.Kind = "group"
@@ -339,6 +377,20 @@ func Build(reqName, pkg string, req schema.CodeGeneratorRequest, fileID uint64, 
 	}
 	for i := 0; i < nodes.Len(); i++ {
 		n := nodes.At(i)
+		if n.Which() == schema.Node_Which_interface && inFile(n) {
+			if goName, ok := names.TypeOfID(n.Id()); ok {
+				ir := IfaceRec{Type: goName}
+				ms, _ := n.Interface().Methods()
+				for k := 0; k < ms.Len(); k++ {
+					m := ms.At(k)
+					mname, _ := m.Name()
+					manns, _ := m.Annotations()
+					ir.Methods = append(ir.Methods, MethodRec{Name: strings.Title(rename(manns, mname)),
+						ParamID: m.ParamStructType(), ResultID: m.ResultStructType()})
+				}
+				t.Ifaces = append(t.Ifaces, ir)
+			}
+		}
 		if n.Which() != schema.Node_Which_structNode || n.StructNode().IsGroup() {
 			continue
 		}
